@@ -2,6 +2,7 @@
 NW = "src/pyunicorn/core/network.py"
 MPI = "src/pyunicorn/utils/mpi.py"
 CPYX = "src/pyunicorn/core/_ext/numerics.pyx"
+RN = "src/pyunicorn/core/resistive_network.py"
 
 MUTANTS = [
  {"name": "c19_newman_last_chunk_short", "property": "C19", "edits": [
@@ -43,4 +44,25 @@ MUTANTS = [
                 else:""", """                        this_betweenness, start_i, end_i = result
                         component_betweenness = this_betweenness
                 else:""")]},
+ {"name": "c18_er_sign", "property": "C18", "edits": [
+   (RN, "return R[a, a] - R[a, b] - R[b, a] + R[b, b]",
+        "return R[a, a] - R[a, b] + R[b, a] + R[b, b]")]},
+ {"name": "c18_update_without_R", "property": "C18", "edits": [
+   (RN, """        # and update R
+        self.update_R()
+
+        # stored""", """        # and update R
+        if self.sparse_R is None:
+            self.update_R()
+
+        # stored""")]},
+ {"name": "c18_admittance_not_inverted", "property": "C18", "edits": [
+   (RN, "                1./self.resistances[edge[0], edge[1]]",
+        "                self.resistances[edge[0], edge[1]]")]},
+ {"name": "c18_diameter_cache_not_cleared", "property": "C18", "edits": [
+   (RN, """        # stored effective resistances are no longer valid
+        self._effective_resistances = None
+""", "")]},
+ {"name": "c18_vcfb_includes_endpoint", "property": "C18", "edits": [
+   ("src/pyunicorn/core/_ext/src_numerics.c", "if(i == t || i == s){", "if(i == t){")]},
 ]
